@@ -175,13 +175,27 @@ def g_sched(rng):
             k = {'s': 'n0'}                                       # the same new key as another writer
         else:
             k = g_key(rng, 0.5)
-        if rng.random() < 0.12:
+        r2 = rng.random()
+        if r2 < 0.12:
             writers.append({'op': 'del', 'k': k})
+        elif r2 < 0.4:
+            # merge_in takes the lock once per item: two merge_in calls interleave item by item
+            items = [[k, {'t': 'int', 'v': 100 + i}]]
+            for j in range(rng.choice([1, 1, 2])):
+                kk = {'s': rng.choice(['m%d%d' % (i, j), 'n0', pool[j]])}
+                if all(kk != it[0] for it in items):
+                    items.append([kk, g_val(rng) if rng.random() < 0.2 else {'t': 'int', 'v': 200 + 10 * i + j}])
+            writers.append({'op': 'merge', 'kvs': items})
         else:
             writers.append({'op': 'set', 'k': k, 'v': g_val(rng) if rng.random() < 0.3 else {'t': 'int', 'v': 100 + i}})
-    scheds = sorted(set(itertools.permutations([i for i in range(n) for _ in (0, 1)])))
+    steps = [i for i, w in enumerate(writers) for _ in range(2 * n_items(w))]
+    rng.shuffle(steps)
     return {'kind': 'sched', 'cap': cap, 'mvl': rng.choice([None, None, 3]), 'init': init,
-            'immutable': rng.random() < 0.06, 'writers': writers, 'sched': list(rng.choice(scheds))}
+            'immutable': rng.random() < 0.06, 'writers': writers, 'sched': steps}
+
+
+def n_items(w):
+    return max(len(w['kvs']), 1) if w['op'] == 'merge' else 1
 
 
 def g_ctor(rng):
@@ -373,6 +387,7 @@ class GatedLock:
             g.arrived.release()
             if not g.release.wait(30):
                 raise TimeoutError('writer was not released')
+            g.release.clear()
             g.parked = False
         self.real.acquire()
         return self
@@ -403,6 +418,8 @@ class Writer:
         try:
             if self.op['op'] == 'set':
                 self.ba[codec.mk_key(self.op['k'])] = codec.mk_val(self.op['v'])
+            elif self.op['op'] == 'merge':
+                self.ba.merge_in(codec.mk_dict(self.op['kvs']))
             else:
                 del self.ba[codec.mk_key(self.op['k'])]
         except Exception as e:      # noqa: B902
@@ -432,8 +449,8 @@ def run_sched(case):
     ws = [Writer(ba, lock, op) for op in case['writers']]
     for i in case['sched']:
         ws[i].advance()
-    for w in ws:                    # drain what the schedule left unfinished, in writer order
-        while w.thread is not None and not w.finished:
+    for w in ws:                    # drain what the schedule left unfinished (or never started), in writer order
+        while not w.finished:
             w.advance()
     for w in ws:
         if w.thread is not None:
@@ -827,32 +844,60 @@ def oracle_ba(case, obs):
     return v
 
 
+def writer_items(w):
+    """the item-level operations of a writer, in its own order"""
+    if w['op'] == 'merge':
+        return [('set', codec.mk_key(k), codec.mk_val(v)) for k, v in w['kvs']]
+    if w['op'] == 'set':
+        return [('set', codec.mk_key(w['k']), codec.mk_val(w['v']))]
+    return [('del', codec.mk_key(w['k']), None)]
+
+
+def serial_outcomes(case):
+    """every outcome (contents in order, dropped, exception per writer) of running the writers' item-level writes in
+    SOME order that keeps each writer's own order (merge_in is not atomic: it assigns item by item)."""
+    progs = [writer_items(w) for w in case['writers']]
+    ref0 = Ref(case['cap'], case['mvl'])
+    ref0.merge(codec.mk_dict(case['init']))
+    ref0.frozen = case['immutable']
+    out = set()
+    seen = set()
+
+    def go(items, dropped, pos, errs):
+        key = (codec.canon_items(items), dropped, pos, errs)
+        if key in seen:
+            return
+        seen.add(key)
+        moved = False
+        for i, prog in enumerate(progs):
+            if pos[i] < len(prog) and errs[i] is None:
+                moved = True
+                ref = Ref(case['cap'], case['mvl'])
+                ref.items, ref.dropped, ref.frozen = list(items), dropped, case['immutable']
+                op, k, v = prog[pos[i]]
+                e = ref.set(k, v) if op == 'set' else ref.delete(k)
+                go(ref.items, ref.dropped, pos[:i] + (pos[i] + 1,) + pos[i + 1:], errs[:i] + (e,) + errs[i + 1:])
+        if not moved:
+            ref = Ref(case['cap'], case['mvl'])
+            ref.items = list(items)
+            out.add((json.dumps(ref.enc(), sort_keys=True), dropped, errs))
+    go(ref0.items, ref0.dropped, tuple(0 for _ in progs), tuple(None for _ in progs))
+    return out
+
+
 def oracle_sched(case, obs):
     """never more than the capacity; and the outcome (contents in order, dropped, exceptions) is that of SOME serial
-    order of the writes (which evicts oldest first and counts every drop)."""
+    order of the item-level writes (which evicts oldest first and counts every drop)."""
     v = []
     cap = case['cap']
     if cap is not None and obs['len'] > cap:
         v.append(f'{obs["len"]} entries in a container of capacity {cap} after concurrent writes')
-    ran = [i for i, r in enumerate(obs['ran']) if r]
-    got = (codec.strip_repr(obs['dict']), obs['dropped'], [obs['errors'][i] for i in ran])
-    serials = []
-    for perm in itertools.permutations(ran):
-        ref = Ref(cap, case['mvl'])
-        ref.merge(codec.mk_dict(case['init']))
-        ref.frozen = case['immutable']
-        errs = {}
-        for i in perm:
-            op = case['writers'][i]
-            if op['op'] == 'set':
-                errs[i] = ref.set(codec.mk_key(op['k']), codec.mk_val(op['v']))
-            else:
-                errs[i] = ref.delete(codec.mk_key(op['k']))
-        serials.append((ref.enc(), ref.dropped, [errs[i] for i in ran]))
+    got = (json.dumps(codec.strip_repr(obs['dict']), sort_keys=True), obs['dropped'], tuple(obs['errors']))
+    serials = serial_outcomes(case)
     if got not in serials:
-        v.append(f'outcome {[k for k, _ in got[0]]} dropped={got[1]} errors={got[2]} is not the outcome of any serial '
-                 f'order of the writes; serial outcomes: '
-                 f'{sorted(set((json.dumps([k for k, _ in s[0]]), s[1]) for s in serials))[:4]}')
+        v.append(f'outcome {[k for k, _ in codec.strip_repr(obs["dict"])]} dropped={got[1]} errors={list(got[2])} is not '
+                 f'the outcome of any serial order of the writes; serial outcomes: '
+                 f'{sorted(set((json.dumps([k for k, _ in json.loads(s[0])]), s[1]) for s in serials))[:4]}')
     check_clean(obs['dict'], case['mvl'], v)
     return v
 
@@ -1011,10 +1056,17 @@ def model_request(case, obs):
                 'immutable': case['immutable'], 'ops': ops}
     if k == 'sched':
         ws = [{'op': 'set', 'k': w['k'], 'v': codec.for_model(w['v'])} if w['op'] == 'set' else
+              {'op': 'merge', 'kvs': m_kvs(w['kvs'])} if w['op'] == 'merge' else
               {'op': 'del', 'k': w['k']} for w in case['writers']]
-        drain = [i for i in range(len(ws)) for _ in (0, 1)]       # run_sched drains unfinished writers in order
+        # one advance of a real writer = (pass the lock with the item it was parked for, then) run to the next
+        # arrival at the lock: two regions of the model except for its first advance
+        steps, started = [], set()
+        drain = [i for i, w in enumerate(case['writers']) for _ in range(2 * n_items(w) + 2)]
+        for i in list(case['sched']) + drain:
+            steps += [i] if i not in started else [i, i]
+            started.add(i)
         return {'kind': 'sched', 'cap': case['cap'], 'mvl': case['mvl'], 'init': m_kvs(case['init']),
-                'immutable': case['immutable'], 'writers': ws, 'sched': list(case['sched']) + drain}
+                'immutable': case['immutable'], 'writers': ws, 'sched': steps}
     if k == 'merge':
         return {'kind': 'merge', 'chain': [{'attrs': m_kvs(r['attrs']), 'url': r['url']} for r in case['chain']]}
     if k in ('create', 'start'):
